@@ -3,6 +3,7 @@
 //! * a thread-local trace of every transcript operation (off unless `start()` was called on this thread);
 //! * an optional override that replaces the bytes returned by the n-th challenge draw on this thread by zeros
 //!   (the STROBE state still advances exactly as upstream, only the bytes handed to the caller change);
+//! * an optional override that replaces a window of transcript-RNG outputs on this thread by zeros (same rule);
 //! * an optional process-wide scheduling hook called on every observed operation.
 //!
 //! With none of these armed the crate behaves byte-for-byte like upstream merlin 3.0.0.
@@ -37,6 +38,8 @@ thread_local! {
     static CHALLENGE_COUNT: Cell<usize> = const { Cell::new(0) };
     static ZERO_AT: Cell<Option<usize>> = const { Cell::new(None) };
     static NEXT_LABEL: Cell<Option<&'static str>> = const { Cell::new(None) };
+    static RNG_FILL_COUNT: Cell<usize> = const { Cell::new(0) };
+    static ZERO_FILLS: Cell<Option<(usize, usize)>> = const { Cell::new(None) };
 }
 
 pub(crate) fn fresh_id() -> u64 {
@@ -59,6 +62,9 @@ fn sched(label: &'static str) {
 pub fn start() {
     TRACE.with(|t| *t.borrow_mut() = Some(Vec::new()));
     CHALLENGE_COUNT.with(|c| c.set(0));
+    if ZERO_FILLS.with(|z| z.get()).is_none() {
+        RNG_FILL_COUNT.with(|c| c.set(0));
+    }
 }
 
 /// Stop recording on this thread and return the trace.
@@ -78,6 +84,35 @@ pub fn reset_challenge_count() {
 /// Make the n-th (0-based, counted from the last reset) challenge draw on this thread return all-zero bytes.
 pub fn zero_challenge_at(n: Option<usize>) {
     ZERO_AT.with(|z| z.set(n));
+}
+
+/// Make the transcript-RNG outputs number `start .. start+count` (0-based `fill_bytes` calls on this thread, counted from
+/// this call) all-zero bytes. The STROBE state advances exactly as upstream; only the bytes handed to the caller change.
+/// `None` disarms. (An environment deviation: "the generator returned the one sample that reduces to zero".)
+pub fn zero_rng_fills(range: Option<(usize, usize)>) {
+    RNG_FILL_COUNT.with(|c| c.set(0));
+    ZERO_FILLS.with(|z| z.set(range));
+}
+
+/// Number of transcript-RNG `fill_bytes` calls on this thread since the last `zero_rng_fills(..)` / `start()`.
+pub fn rng_fill_count() -> usize {
+    RNG_FILL_COUNT.with(|c| c.get())
+}
+
+pub(crate) fn after_rng_fill(tid: u64, dest: &mut [u8]) {
+    let n = RNG_FILL_COUNT.with(|c| {
+        let n = c.get();
+        c.set(n + 1);
+        n
+    });
+    if let Some((start, count)) = ZERO_FILLS.with(|z| z.get()) {
+        if n >= start && n < start + count {
+            for b in dest.iter_mut() {
+                *b = 0;
+            }
+        }
+    }
+    emit(tid, || Op::RngFill { out: dest.to_vec() });
 }
 
 pub(crate) fn label_next(l: &'static str) {
